@@ -15,7 +15,7 @@ use simplicity::jet::Elements;
 use simplicity::{BitIter, RedeemNode};
 
 pub const SPEC: Spec = Spec {
-    rule: "Elements family only. mode valid: the (program, witness) encoding of a generated well-typed program with all combinator kinds (and, when it runs in a minimal environment, of its pruned form); mode mutate: 1-4 byte-level mutations of such an encoding (bit flip, overwrite, truncate, extend, splice, insert, delete; program or witness); mode raw: arbitrary bytes; mode inner-type duplicate: a hand-assembled DAG with two unshared nodes of one identity hash whose inner types (and annotated roots) differ, and its canonical twin. Oracle (differential against the vendored C pipeline: decodeMallocDag, closeBitstream, mallocTypeInference, fillWitnessData, closeBitstream, computeAnnotatedMerkleRoot, verifyNoDuplicateIdentityHashes, analyseBounds, 1->1 check): RedeemNode::decode::<Elements> is Ok exactly when C accepts, except C FailCode (designed) and C Malloc/ExecMemory refusals (outside libsimplicity's limits, counted); when both accept, cmr/amr/ihr are byte-identical and bounds().cost equals the C cost bound whenever analyseBounds(CELLS_MAX) succeeds. Inputs whose declared node count cannot fit in the available bits are only given to Rust (the C decoder allocates from the length prefix). Non-trivial: both accept and >= 6 nodes. Distinct by input bytes.",
+    rule: "Elements family only. mode valid: the (program, witness) encoding of a generated well-typed program with all combinator kinds (and, when it runs in a minimal environment, of its pruned form); mode mutate: 1-4 byte-level mutations of such an encoding (bit flip, overwrite, truncate, extend, splice, insert, delete; program or witness); mode raw: arbitrary bytes; mode inner-type duplicate: a hand-assembled DAG with two unshared nodes of one identity hash whose inner types (and annotated roots) differ, and its canonical twin; mode expression (12% of the non-raw cases): a generated expression A -> B that is not wrapped as a program, built by Rust, serialised and given to C, which computes all roots before its 1->1 check - cmr/amr/ihr of the expression (source type differs from target type in most) must equal C's. Oracle (differential against the vendored C pipeline: decodeMallocDag, closeBitstream, mallocTypeInference, fillWitnessData, closeBitstream, computeAnnotatedMerkleRoot, verifyNoDuplicateIdentityHashes, analyseBounds, 1->1 check): RedeemNode::decode::<Elements> is Ok exactly when C accepts, except C FailCode (designed) and C Malloc/ExecMemory refusals (outside libsimplicity's limits, counted); when both accept, cmr/amr/ihr are byte-identical, the cmr and amr of every node equal those of the C DAG node at the same position (C numbering minus hidden nodes = canonical post-order), and bounds().cost equals the C cost bound whenever analyseBounds(CELLS_MAX) succeeds. Inputs whose declared node count cannot fit in the available bits are only given to Rust (the C decoder allocates from the length prefix). Non-trivial: both accept and >= 6 nodes. Distinct by input bytes.",
     design_ref: "§6 C03",
     max_len: 1500,
     quick_cases: 30_000,
@@ -66,6 +66,7 @@ pub fn compare(cx: &mut Case, prog: &[u8], wit: &[u8], origin: &str) -> CaseResu
             if r.ihr().to_byte_array() != c.ihr {
                 return Err(format!("ihr differs: Rust {} C {}; {}", r.ihr(), hex(&c.ihr), ctx()));
             }
+            per_node(cx, r, &c, &ctx)?;
             match c.bounds {
                 Ok(cost) => {
                     let rc: u64 = r.bounds().cost.to_string().parse().unwrap_or(u64::MAX);
@@ -94,6 +95,90 @@ pub fn compare(cx: &mut Case, prog: &[u8], wit: &[u8], origin: &str) -> CaseResu
         (Ok(_), Some((stage, e))) => Err(format!("Rust accepts but libsimplicity rejects at {:?} with {:?}; {}", stage, e, ctx())),
         (Err(e), None) => Err(format!("libsimplicity accepts but Rust rejects with: {}; {}", e, ctx())),
     }
+}
+
+/// Every node, not only the root: the C DAG numbers the nodes as the encoding does (hidden nodes
+/// included); the Rust program yields the same sequence without the hidden nodes in its
+/// canonical post-order.  C exposes the commitment and annotated roots per node (the identity
+/// hash only for the root).
+fn per_node(cx: &mut Case, r: &RedeemNode, c: &cbind::COutput, ctx: &dyn Fn() -> String) -> CaseResult {
+    let c_ix: Vec<usize> = (0..c.node_hidden.len()).filter(|i| !c.node_hidden[*i]).collect();
+    let items: Vec<_> = simplicity::dag::DagLike::post_order_iter::<simplicity::dag::MaxSharing<simplicity::node::Redeem>>(r).collect();
+    if items.len() != c_ix.len() {
+        cx.label("per-node comparison skipped (node counts differ)");
+        return Ok(());
+    }
+    cx.label("per-node cmr and amr compared");
+    for (k, it) in items.iter().enumerate() {
+        let ci = c_ix[k];
+        if it.node.cmr().to_byte_array() != c.node_cmr[ci] {
+            return Err(format!("cmr of node {} ({}) differs: Rust {} C {}; {}", k, it.node.inner(), it.node.cmr(), hex(&c.node_cmr[ci]), ctx()));
+        }
+        if it.node.amr().to_byte_array() != c.node_amr[ci] {
+            return Err(format!("amr of node {} ({}) differs: Rust {} C {}; {}", k, it.node.inner(), it.node.amr(), hex(&c.node_amr[ci]), ctx()));
+        }
+    }
+    Ok(())
+}
+
+/// An expression of a drawn arrow A -> B that is *not* wrapped as a program: its roots are
+/// computed by Rust on the built node and by C on its serialisation (C computes the commitment,
+/// annotated and identity roots before it checks that the root is 1 -> 1).  This is where the
+/// source and target types enter the identity hash with different values.
+fn expression_roots(cx: &mut Case) -> CaseResult {
+    cx.label("mode: roots of a non-program expression");
+    let mut cfg = GenCfg::basic(Family::Elements);
+    cfg.fail = false;
+    cfg.max_nodes = [6usize, 20, 60][cx.src.below(3)];
+    cfg.share_p = [0u32, 40, 120][cx.src.below(3)];
+    let wmax = [2usize, 12, 70][cx.src.below(3)];
+    let (a, b) = gen_arrow(&mut cx.src, wmax);
+    let mut src = cx.src.clone();
+    let mut g = ProgGen::new(&mut src, cfg);
+    let e = g.expr(&a, &b, 0);
+    let prog = g.finish(e);
+    cx.src = src;
+    let typed = match type_check(&prog, false) {
+        Ok(t) => t,
+        Err(e) => return Err(harness_error(format!("generated expression rejected: {:?}; {}", e, prog.render()))),
+    };
+    let mut vb = ValBuilder::new();
+    vb.constructors_only = true;
+    vb.allow_machine = false;
+    let mut s = cx.src.clone();
+    let wit = gen_witnesses(&prog, &typed, &mut s, &mut vb);
+    cx.src = s;
+    let redeem = build_redeem(&prog, false, &wit.values).map_err(|e| harness_error(format!("pass 2 (expression): {:?}", e)))?;
+    let (pb, wb) = redeem.to_vec_with_witness();
+    cx.fp.write(&pb);
+    cx.fp.write_u64(0xfffd);
+    cx.fp.write(&wb);
+    cx.set_sample(|| json!({"mode": "expression", "arrow": redeem.arrow().to_string(), "expression": prog.render(), "bytes": hex(&pb), "witness": hex(&wb)}));
+    let c = cbind::run(&pb, &wb, None);
+    let ctx = || format!("expression {} : {} program {} witness {}", prog.render(), redeem.arrow(), hex(&pb), hex(&wb));
+    match &c.rejected {
+        None | Some((Stage::NotProgram, _)) => {}
+        Some((stage, e)) => {
+            // Rust has not decoded these bytes: nothing in the property relates a C refusal of
+            // an expression to a Rust verdict
+            cx.label("expression: C stops before the roots (not compared)");
+            cx.note(|| format!("C stopped at {:?} with {:?}", stage, e));
+            return Ok(());
+        }
+    }
+    let n = simplicity::dag::DagLike::post_order_iter::<simplicity::dag::InternalSharing>(redeem.as_ref()).count();
+    cx.nontrivial = n >= 4 && redeem.arrow().source != redeem.arrow().target;
+    cx.label_if(redeem.arrow().source != redeem.arrow().target, "expression: source type differs from target type");
+    if redeem.cmr().to_byte_array() != c.cmr {
+        return Err(format!("cmr differs: Rust {} C {}; {}", redeem.cmr(), hex(&c.cmr), ctx()));
+    }
+    if redeem.amr().to_byte_array() != c.amr {
+        return Err(format!("amr differs: Rust {} C {}; {}", redeem.amr(), hex(&c.amr), ctx()));
+    }
+    if redeem.ihr().to_byte_array() != c.ihr {
+        return Err(format!("ihr differs: Rust {} C {}; {}", redeem.ihr(), hex(&c.ihr), ctx()));
+    }
+    per_node(cx, redeem.as_ref(), &c, &ctx)
 }
 
 /// `comp (comp (pair witness const_T) eq_T) unit`: one witness node whose type T is pinned
@@ -166,6 +251,11 @@ pub fn gen_pinned_witness_program(cx: &mut Case) -> super::c01::Generated {
 
 pub fn case(cx: &mut Case) -> CaseResult {
     let mode = cx.src.weighted(&[40, 50, 3, 20]);
+    // (the raw mode stays the last one of the four for the fuzz target's prefix byte; the
+    //  expression mode is drawn separately)
+    if mode != 3 && cx.src.chance(12) {
+        return expression_roots(cx);
+    }
     if mode == 2 {
         // hand-assembled: two unshared nodes with one identity hash whose inner types differ
         // (annotated roots differ), and the canonical twin; C decides both
